@@ -433,6 +433,30 @@ def run(chk: Check):
                         + f" {len(order_bb)} " + " ".join(map(str, order_bb.tolist())) + f" {len(pts)} " + " ".join(f2h(x) for x in np.asarray(pts, dtype=float).flatten().tolist())
                         + f" {bs} {parents[r]}" + f" {len(sh)} " + " ".join(f"{c} {s} {int(p)}" for c, s, p in sh))
             metas.append(("bb", rec[-1][0][r] if rec else None, out[r]))
+    # ---------------- (c') a long history held in ONE pair of arrays that the caller updates in place between calls (a hand-written driver loop):
+    # every call ranks the losses as they are now
+    from black_it.search_space import SearchSpace
+    for n_hist in ([5000] if chk.tier == "quick" else [5000, 4096, 20000]):
+        sp_l = SearchSpace([[0.0, 0.0], [1.0, 1.0]], [0.001, 0.001], False)
+        bs_l, range_l = rng.randint(1, 3), rng.randint(2, 5)
+        smp_l = BestBatchSampler(bs_l, random_state=rng.randrange(10 ** 6), perturbation_range=range_l)
+        prng_l = np.random.default_rng(rng.randrange(10 ** 6))
+        pts_l = np.round(prng_l.random((n_hist, 2)), 3); losses_l = prng_l.random(n_hist) + 1.0
+        case_l = {"case": {"kind": "bestbatch_long_history_updated_in_place", "history": n_hist, "batch_size": bs_l, "range": range_l}}
+        for call_l in range(3):
+            with quiet():
+                out_l = smp_l.sample_batch(bs_l, sp_l, pts_l, losses_l)
+            best_l = pts_l[np.argsort(losses_l, kind="stable")[:bs_l]]
+            reach = (range_l - 1) * 0.001 + 1e-9
+            for row in out_l:
+                if not any(np.all(np.abs(row - b_) <= reach) for b_ in best_l):
+                    dist = min(float(np.max(np.abs(row - b_))) for b_ in best_l) / 0.001
+                    chk.fail(f"best-batch on a history of {n_hist} points (call {call_l}, the caller's arrays updated in place between calls): proposal {row.tolist()} is "
+                             f"{dist:.0f} steps from the nearest of the {bs_l} lowest-loss points as they are now", case_l)
+                    break
+            # the caller records new results in place: the ranking changes completely
+            losses_l[:] = losses_l[::-1].copy() if call_l == 0 else prng_l.random(n_hist) + 1.0
+        chk.case(["bb-long", n_hist, bs_l, range_l], True, case_l["case"]); chk.count("bestbatch:long_history_arrays_updated_in_place")
     answers = lean_run(reqs) if reqs else []
     for (kind, a, b), ans in zip(metas, answers):
         if kind == "select":
